@@ -390,7 +390,8 @@ def construct(eng, s, fr, cls, args, kwargs, lineno):
     """cls(...) for the classes the glue layer instantiates"""
     from . import extract
     anc = extract.mro(cls)
-    if 'GeometryListArray' in anc and len(args) == 1 and isinstance(args[0], SRecord) and args[0].cls == 'ListArray':
+    if 'GeometryListArray' in anc and len(args) == 1 and isinstance(args[0], SRecord) \
+            and args[0].cls in ('ListArray', 'ListArrayTake'):
         rep = args[0]
         return SRecord(cls, {'listarray': rep, 'data': rep, 'numpy_dtype': DType('float64'), '_sindex': NONE,
                              '_element_len': SInt(2)})
@@ -443,6 +444,8 @@ def seq_len(s, v):
         return SInt(len(v))
     if isinstance(v, SRecord) and 'length' in v.fields:
         return v.fields['length']
+    if isinstance(v, SRecord) and 'data' in v.fields:
+        return seq_len(s, v.fields['data'])      # GeometryArray.__len__ is len(self.data)
     raise Unsupported(f"len of {type(v).__name__}")
 
 
@@ -517,10 +520,12 @@ def _dtype_of(dt):
         return DType('float64')
     if isinstance(dt, DType):
         return dt
-    if isinstance(dt, SStr):
-        return DType(dt.s)
+    if isinstance(dt, SStr) and dt.s in ('int', 'float', 'bool'):
+        return DType({'bool': 'bool', 'int': 'int64', 'float': 'float64'}[dt.s])
     if isinstance(dt, Builtin) and dt.name in ('bool', 'int', 'float'):
         return DType({'bool': 'bool', 'int': 'int64', 'float': 'float64'}[dt.name])
+    if isinstance(dt, SStr):
+        return DType(dt.s)
     raise Unsupported(f"dtype argument {dt}")
 
 
@@ -682,7 +687,11 @@ def elementwise_binop(eng, s, fr, op, a, b):
         if isinstance(op, ast.Div):
             return to_float(x) / to_float(y)
         return eng.binop(op, x, y, s, fr)
-    return new_lambda_array(s, elem, dtype, n, f, 'bin')
+    res = new_lambda_array(s, elem, dtype, n, f, 'bin')
+    for x, y in ((a, b), (b, a)):
+        if isinstance(x, SArr) and not isinstance(y, SArr) and 'rank' in x.base.meta:
+            res.base.meta.update({k2: x.base.meta[k2] for k2 in ('pos', 'rank', 'mask', 'count')})
+    return res
 
 
 def elementwise_unop(eng, s, fr, op, a):
@@ -848,6 +857,25 @@ def store_fancy(eng, s, fr, arr, items, v, lineno):
     kind, idx = items[0]
     base = arr.base
     n = arr.length()
+    if isinstance(v, SArr) and kind == 'mask' and v.base.meta.get('mask') is not None \
+            and v.base.meta['mask'].base is idx.base and base.kind == 'sym':
+        # a[m] = f(a[m]) : the j-th selected cell receives the j-th value; with rank(k) = position of k among the
+        # selected cells this is  new[k] = value[rank(k)]  for selected k
+        rank = v.base.meta['rank']
+        d0 = arr.rng_dims()[0]
+        off0 = d0[1]
+        if len(arr.dims) != 1 or not (d0[2].concrete and d0[2].v == 1):
+            raise Unsupported("masked array store through a strided view")
+        old_read = st.content_reader(base, s.heap[base.id])
+        eng.oblige(fr, s, 'store', 'mask-length', idx.length() == n, lineno)
+
+        def newfn2(ix):
+            k = ix[0] - off0
+            cond = And(k >= 0, k < n, to_bool(cell(snap, idx, k)))
+            return merge_values(cond, st.coerce_elem(base, cell(snap, v, rank(k)), None), old_read(ix))
+        s.heap[base.id] = st.fn_content(newfn2)
+        st.name_content(s, base)
+        return
     if isinstance(v, (SArr, STuple, SList)):
         raise Unsupported("fancy store of a sequence")
     val = st.coerce_elem(base, v, lambda k, c: eng.oblige(fr, s, k, 'value-fits-dtype', c, lineno))
